@@ -39,6 +39,9 @@ type Edit struct {
 type C20Case struct {
 	Edits  []Edit `json:"edits"`
 	KeyLog bool   `json:"keyLog,omitempty"` // the process is started with a TLS key log file (chf -l <file>)
+	// PadKiB: the file carries that many KiB of comment lines between the first and the second entry of the service
+	// list, which is written last (after every mandatory section): a large file whose list goes on far into it
+	PadKiB int `json:"padKiB,omitempty"`
 }
 
 var (
@@ -118,7 +121,11 @@ func genC20(t *rapid.T) C20Case {
 			c.Edits = append(c.Edits, Edit{Path: p, Op: "setint", Val: rapid.SampledFrom([]string{"0", "1", "65535", "65536", "-1"}).Draw(t, "port")})
 		case 6:
 			l := rapid.SampledFrom([]string{"nchf-convergedcharging", "nchf-offlineonlycharging", "nchf-spendinglimitcontrol", "nchf-convergedcharging,nchf-convergedcharging",
-				"nchf-convergedcharging,nchf-spendinglimitcontrol,nchf-offlineonlycharging", "nchf-convergedcharging,nchf-offlineonlycharging,nchf-convergedcharging", "nchf-offlineonlycharging,nchf-spendinglimitcontrol,nchf-convergedcharging,nchf-spendinglimitcontrol", "nchf-unknown", "nchf-convergedcharging,bogus", "", "nchf-spendinglimitcontrol,nchf-spendinglimitcontrol,nchf-offlineonlycharging", "NCHF-CONVERGEDCHARGING"}).Draw(t, "services")
+				"nchf-convergedcharging,nchf-spendinglimitcontrol,nchf-offlineonlycharging", "nchf-convergedcharging,nchf-offlineonlycharging,nchf-convergedcharging", "nchf-offlineonlycharging,nchf-spendinglimitcontrol,nchf-convergedcharging,nchf-spendinglimitcontrol", "nchf-unknown", "nchf-convergedcharging,bogus", "", "nchf-spendinglimitcontrol,nchf-spendinglimitcontrol,nchf-offlineonlycharging", "NCHF-CONVERGEDCHARGING",
+				"nchf-convergedcharging*256", "nchf-convergedcharging*257", "nchf-offlineonlycharging,nchf-convergedcharging*512", "nchf-spendinglimitcontrol*65536", "nchf-convergedcharging*255,nchf-offlineonlycharging"}).Draw(t, "services")
+			if rapid.IntRange(0, 3).Draw(t, "padded") == 0 {
+				c.PadKiB = rapid.SampledFrom([]int{1, 1000, 1024, 1100, 2048, 5000}).Draw(t, "padKiB")
+			}
 			c.Edits = append(c.Edits, Edit{Path: "configuration.serviceNameList", Op: "list", Val: l})
 		case 7:
 			c.Edits = append(c.Edits, Edit{Path: "configuration.cgf.enable", Op: "setbool", Val: rapid.SampledFrom([]string{"true", "false"}).Draw(t, "cgfEnable")})
@@ -170,7 +177,16 @@ func apply(m map[string]interface{}, e Edit) {
 		var l []interface{}
 		if e.Val != "" {
 			for _, s := range strings.Split(e.Val, ",") {
-				l = append(l, s)
+				// name*N: the name N times
+				n := 1
+				if i := strings.LastIndex(s, "*"); i > 0 {
+					if k, err := strconv.Atoi(s[i+1:]); err == nil {
+						s, n = s[:i], k
+					}
+				}
+				for ; n > 0; n-- {
+					l = append(l, s)
+				}
 			}
 		}
 		cur[k] = l
@@ -233,19 +249,35 @@ func judgeC20(c C20Case) *h.Verdict {
 	if err != nil {
 		return v.Failf("HARNESS-yaml", "%v", err)
 	}
+	if l, ok := get(m, "configuration.serviceNameList"); ok {
+		if ll, ok := l.([]interface{}); ok && len(ll) >= 256 {
+			v.Label("service-list>=256-entries")
+		}
+	}
+	if c.PadKiB > 0 {
+		padded, ok := paddedYaml(m, c.PadKiB)
+		if !ok {
+			v.Skipped = true
+			return v
+		}
+		y = padded
+		if c.PadKiB >= 1024 {
+			v.Label("file>1MiB-list-continues-after-the-padding")
+		}
+	}
 	file := filepath.Join(workDir, fmt.Sprintf("chfcfg-%d-%d.yaml", os.Getpid(), seq.Add(1)))
 	_ = os.WriteFile(file, y, 0o600)
 	defer os.Remove(file)
 	var cfg *factory.Config
 	var rerr error
 	if p, val, st := h.Safely(func() { cfg, rerr = factory.ReadConfig(file) }); p {
-		return v.Failf("readconfig-panic", "ReadConfig panicked: %v\n%s\n%s", val, st, y)
+		return v.Failf("readconfig-panic", "ReadConfig panicked: %v\n%s\n%s", val, st, short(y))
 	}
 	cls, must := mustReject(m)
 	if must {
 		v.NT("must-reject:" + strings.Split(cls, ":")[0])
 		if rerr == nil {
-			return v.Failf("accepted-invalid/"+cls, "validation accepted a configuration that must be rejected (%s):\n%s", cls, y)
+			return v.Failf("accepted-invalid/"+cls, "validation accepted a configuration that must be rejected (%s):\n%s", cls, short(y))
 		}
 		return v
 	}
@@ -280,7 +312,7 @@ func judgeC20(c C20Case) *h.Verdict {
 	if strings.Contains(o, "CHILD: config rejected") {
 		// the very file this process's ReadConfig accepted is rejected by a fresh process: what validation says
 		// depends on what the process validated before
-		return v.Failf("validation-depends-on-history", "a configuration accepted by ReadConfig in a process that had validated other configurations before is rejected by a fresh process:\n%s\n--- output of the fresh process ---\n%.1500s", y, tail(o, 1500))
+		return v.Failf("validation-depends-on-history", "a configuration accepted by ReadConfig in a process that had validated other configurations before is rejected by a fresh process:\n%s\n--- output of the fresh process ---\n%.1500s", short(y), tail(o, 1500))
 	}
 	crashed := strings.Contains(o, "panic:") || strings.Contains(o, "nil pointer") || strings.Contains(o, "fatal error:") || strings.Contains(o, "SIGSEGV")
 	if err != nil || crashed {
@@ -291,9 +323,77 @@ func judgeC20(c C20Case) *h.Verdict {
 			}
 		}
 		frame := h.PanicFrame(o)
-		return v.Failf("crash/"+where+"/"+frame, "a configuration accepted by validation crashed the CHF at stage %s (exit: %v):\n%s\n--- output ---\n%.3000s", where, err, y, tail(o, 3000))
+		return v.Failf("crash/"+where+"/"+frame, "a configuration accepted by validation crashed the CHF at stage %s (exit: %v):\n%s\n--- output ---\n%.3000s", where, err, short(y), tail(o, 3000))
 	}
 	return v
+}
+
+// paddedYaml writes the configuration with the service list last and padKiB KiB of comment lines between its first
+// and second entry (the list must be a list of at least two strings).
+func paddedYaml(m map[string]interface{}, padKiB int) ([]byte, bool) {
+	conf, ok := m["configuration"].(map[string]interface{})
+	if !ok {
+		return nil, false
+	}
+	l, ok := conf["serviceNameList"].([]interface{})
+	if !ok || len(l) < 2 {
+		return nil, false
+	}
+	for _, e := range l {
+		if _, ok := e.(string); !ok {
+			return nil, false
+		}
+	}
+	rest := map[string]interface{}{}
+	for k, v := range m {
+		if k != "configuration" {
+			rest[k] = v
+		}
+	}
+	c2 := map[string]interface{}{}
+	for k, v := range conf {
+		if k != "serviceNameList" {
+			c2[k] = v
+		}
+	}
+	a, err1 := yaml.Marshal(rest)
+	b, err2 := yaml.Marshal(map[string]interface{}{"configuration": c2})
+	if err1 != nil || err2 != nil {
+		return nil, false
+	}
+	// indentation of the members of configuration, as the library writes it
+	indent := ""
+	for _, line := range strings.Split(string(b), "\n")[1:] {
+		t := strings.TrimLeft(line, " ")
+		if t != "" && !strings.HasPrefix(t, "-") {
+			indent = line[:len(line)-len(t)]
+			break
+		}
+	}
+	if indent == "" {
+		return nil, false
+	}
+	var out bytes.Buffer
+	out.Write(a)
+	out.Write(b)
+	out.WriteString(indent + "serviceNameList:\n")
+	fmt.Fprintf(&out, "%s- %q\n", indent, l[0])
+	pad := indent + "# " + strings.Repeat("padding ", 15) + "\n"
+	for n := 0; n < padKiB*1024; n += len(pad) {
+		out.WriteString(pad)
+	}
+	for _, e := range l[1:] {
+		fmt.Fprintf(&out, "%s- %q\n", indent, e)
+	}
+	return out.Bytes(), true
+}
+
+// short cuts a long configuration text for a message (the case reproduces it in full).
+func short(y []byte) string {
+	if len(y) <= 4000 {
+		return string(y)
+	}
+	return string(y[:2500]) + fmt.Sprintf("\n... (%d octets) ...\n", len(y)-3500) + string(y[len(y)-1000:])
 }
 
 func tail(s string, n int) string {
@@ -419,6 +519,32 @@ func TestC20SingleEdits(t *testing.T) {
 			if j%nsh == shard {
 				if !yield(C20Case{Edits: []Edit{{Path: "configuration.serviceNameList", Op: "list", Val: l}}}) {
 					return
+				}
+			}
+		}
+		// a known name repeated - twice, and as often as the widths of small counters
+		j := 0
+		for _, name := range known {
+			for _, n := range []int{2, 3, 255, 256, 257, 511, 512, 513, 65535, 65536, 65537} {
+				for _, l := range []string{fmt.Sprintf("%s*%d", name, n), fmt.Sprintf("%s,%s*%d", known[(j+1)%3], name, n)} {
+					j++
+					if j%nsh == shard {
+						if !yield(C20Case{Edits: []Edit{{Path: "configuration.serviceNameList", Op: "list", Val: l}}}) {
+							return
+						}
+					}
+				}
+			}
+		}
+		// a large file: the list's first entry, then 1 KiB to 9 MiB of comment lines, then the rest of the list -
+		// valid, with an unknown name, with the first name again
+		for _, kib := range []int{1, 1000, 1023, 1024, 1025, 2048, 4096, 9000} {
+			for _, l := range []string{"nchf-convergedcharging,nchf-offlineonlycharging", "nchf-convergedcharging,nchf-bogus", "nchf-convergedcharging,nchf-offlineonlycharging,nchf-bogus", "nchf-convergedcharging,nchf-convergedcharging", "nchf-spendinglimitcontrol,nchf-offlineonlycharging,nchf-spendinglimitcontrol"} {
+				j++
+				if j%nsh == shard {
+					if !yield(C20Case{PadKiB: kib, Edits: []Edit{{Path: "configuration.serviceNameList", Op: "list", Val: l}}}) {
+						return
+					}
 				}
 			}
 		}
